@@ -306,7 +306,16 @@ impl StateRestorer {
                 EventPayload::TaskFailed { task_id, error } => {
                     log::debug!("Replaying: TaskFailed {task_id}");
                     if let Some(job) = self.jobs.get_mut(&task_id.job_id()) {
-                        let task = job.tasks.get_mut(&task_id.job_task_id()).unwrap();
+                        // A task may fail without being started (e.g. when its launch fails),
+                        // then there is no previous record about the task
+                        let task = job
+                            .tasks
+                            .entry(task_id.job_task_id())
+                            .or_insert(RestorerTaskInfo {
+                                state: JobTaskState::Waiting,
+                                instance_id: None,
+                                crash_counter: 0,
+                            });
                         task.state = match std::mem::replace(&mut task.state, JobTaskState::Waiting)
                         {
                             JobTaskState::Waiting => JobTaskState::Failed {
